@@ -365,6 +365,28 @@ Theorem C05_splits_admin_changes_only_by_admin : forall s sender m s',
    (sp_admin s' <> sp_admin s -> sp_admin s = Some sender /\ exists n, m = SUpdateAdmin n /\ sp_admin s' = n)).
 Proof. exact splits_admin_changes_only_by_admin. Qed.
 
+(* ---- migration: the other message a user account can send ---- *)
+(* Factory parameters and minter status change only through governance (sudo), never
+   through a user message — execute OR migrate, in every reachable state: over any
+   history of executes and migrates by anyone (wasm admin or not) a minter's admin, Status
+   and the Params it reads stay what they were; so do a factory's Params as long as no
+   migrate carries an explicit parameter message (C20's documented exception: the wasm
+   admin's migrate WITH an UpdateParams message applies it) *)
+Theorem C05_no_user_message_changes_status_or_params :
+  (forall f s history, run_user (AMinter f s) history = AMinter f s) /\
+  (forall p history, forallb no_explicit_params history = true -> run_user (AFactory p) history = AFactory p).
+Proof. exact (conj no_user_message_changes_minter_status no_user_message_changes_factory_params). Qed.
+
+(* a migrate gets through only for the wasm admin; without explicit parameters it is a
+   frame on everything the queries show, for every contract kind; the only way it changes
+   anything is wasm admin + explicit parameters + a factory *)
+Theorem C05_migrate_only_wasm_admin_and_frame :
+  (forall st explicit, migrate_step st false explicit = Err) /\
+  (forall st adm st', migrate_step st adm None = Ok st' -> st' = st) /\
+  (forall st adm explicit st', migrate_step st adm explicit = Ok st' -> st' <> st ->
+     adm = true /\ exists p q, st = AFactory p /\ explicit = Some q /\ st' = AFactory q).
+Proof. exact (conj migrate_only_wasm_admin (conj migrate_frame migrate_changes_state_only_by_admin_explicit_params)). Qed.
+
 (* ---- airdrop, instantiation, refusals ---- *)
 Theorem C05_airdrop_claim_only_signed_wallet : forall env sender w,
   sender <> w -> auth_step AAirdrop env sender (AClaim w) = Err.
@@ -799,6 +821,8 @@ Print Assumptions C05_whitelist_principals_move_only_by_admins.
 Print Assumptions C05_splits_distribute_exactly_for.
 Print Assumptions C05_splits_distribute_rejected_otherwise.
 Print Assumptions C05_splits_admin_changes_only_by_admin.
+Print Assumptions C05_no_user_message_changes_status_or_params.
+Print Assumptions C05_migrate_only_wasm_admin_and_frame.
 Print Assumptions C05_airdrop_claim_only_signed_wallet.
 Print Assumptions C05_instantiate_requires_contract_sender.
 Print Assumptions C05_instantiate_decided_by_sender_not_by_named_minter.
